@@ -232,7 +232,11 @@ LONG_NAMES = ["é" * 100, "日" * 80, "a bcd" * 40, "é" * 100 + ".gmi", "\U0001
               "a" * 254, "a" * 255, "a" * 256, "é" * 127, "é" * 127 + "a", "é" * 128, "日" * 85, "日" * 85 + "a",
               "a" * 249 + "é", "a" * 250 + "é", "a" * 126 + " " + "a" * 126, "a" * 127 + " " + "a" * 126, "é" * 42 + "aaa", "é" * 42 + "aaaa", "é" * 43,
               "日" * 28 + "aaa", "日" * 28 + "aaaa", "日" * 29, "%" * 85, "%" * 86, "e\u0301" * 60]
-NAMES = T.NAMES * 3 + LONG_NAMES          # about one generated name in six is a long one
+# names that themselves look like percent-escapes (a literal "%" followed by two hex digits): their RFC 3986 spelling
+# writes the "%" as "%25", and whoever decodes a path twice lands on another name - the twin next to them, a dot
+# segment, a slash
+PCT_NAMES = ["a%41.gmi", "aA.gmi", "50%25-off.txt", "50%-off.txt", "100%2F", "100%2f", "%2e%2e", "%2E", "x%2Fy", "%25", "%2541", "%00", "%C3%A9", "é%2541"]
+NAMES = T.NAMES * 3 + LONG_NAMES + PCT_NAMES * 2         # about one generated name in six is a long one, one in seven a percent name
 
 
 def _own_requests(rel_inside: str):
@@ -308,13 +312,13 @@ def _requests(rng, tree, n, own_p=0.3):
     return paths
 
 
-def _judge(paths, res, ents, outside, mx, when="", safety=True, complete=True):
+def _judge(paths, res, ents, outside, mx, when="", safety=True, complete=True, lvl0="handler"):
     """the property, evaluated on the answers to `paths` against the tree `ents` the requests met"""
     outside = set(outside)
     files = {e[2]: e for e in ents if e[0] == "f"}
     plain = [e for e in _plain_inside_files(ents) if e[3] and e[4] <= mx]
     for sp, o in zip(paths, res):
-        for lvl, r, x in ((("handler", o["r"], o["x"]),) + ((("wire", o["p"], o["px"]),) if "p" in o else ())) if safety else ():
+        for lvl, r, x in (((lvl0, o["r"], o["x"]),) + ((("wire", o["p"], o["px"]),) if "p" in o else ())) if safety else ():
             leaked = sorted(set(x["sent"]) & outside)
             if leaked:
                 return ("outside-content", f"{when}{lvl}: request {_short(sp)} -> response contains the content of file(s) {[files[i][1] for i in leaked]} whose real path lies outside the document root")
@@ -595,6 +599,214 @@ class Sequence(Family):
         return cur
 
 
+# ----------------------------------------------------------------------------------------------
+# static serving as the SERVER is wired: `nauyaca serve` -> configuration -> locations / router -> protocol
+# ----------------------------------------------------------------------------------------------
+LINK_NAMES = ["current", "cur", "live", "www"]
+
+
+def _toml_str(s: str) -> str:
+    import json
+
+    return json.dumps(s, ensure_ascii=False)
+
+
+def _tomlable(s: str) -> bool:
+    return T._encodable(s) and not any(ord(c) < 0x20 or ord(c) == 0x7F for c in s)
+
+
+def _root_spelling(rng: random.Random, tree):
+    """one way an operator may WRITE the document root `root` (relative to the directory above it): the plain name,
+    with `.` / `..` through real directories, through a symlink to it, or - the layout of deployments that switch a
+    `current` link - `<link>/../root` where the link leads to a directory whose parent holds the root.  For the kernel
+    every spelling names the same directory; the text with `..` cancelled LEXICALLY names another place, where (mostly)
+    a decoy directory with files of its own is put.  -> (entries to add, spelling)"""
+    fid = max([e[2] for e in tree if e[0] == "f"] + [7]) + 1
+    have = {e[1] for e in tree}
+    inside = [e[1] for e in tree if e[0] == "d" and e[1].startswith("root/") and e[1].count("/") == 1 and _tomlable(e[1])]
+    k = rng.random()
+    if k < 0.30:
+        pool = ["root", "root", "root/", "./root", "root/.", "out/../root", "root-evil/../root", "out/sub/../../root", "out/./../root/"]
+        pool += [d + "/.." for d in inside[:3]]
+        return [], rng.choice(pool)
+    holder = rng.choice(["out", "out/sub", "root-evil", "out", "out/sub"])
+    name = rng.choice([n for n in LINK_NAMES if holder + "/" + n not in have] or ["current"])
+    link = holder + "/" + name
+    up = "../" * (holder.count("/") + 1)
+    tk = rng.random()
+    if tk < 0.2:
+        tgt, depth = rng.choice([up + "root", "/root"]), 0           # straight to the root
+    elif tk < 0.75:
+        x = rng.choice(["out", "root-evil", "root"])                  # to a directory next to the root (or the root)
+        tgt, depth = rng.choice([up + x, "/" + x]), 1
+    else:
+        x = rng.choice(["out/sub"] + inside)                         # one level deeper
+        tgt, depth = rng.choice([up + x, "/" + x]), 2
+    sp = link if depth == 0 else link + "/.." * depth + "/root"
+    if depth == 0 and rng.random() < 0.3:
+        sp = link + "/" + rng.choice([".", "../" + name, ""])
+    extra = [["l", link, tgt]]
+    import posixpath
+
+    lex = posixpath.normpath(sp)                                     # where the spelling points once ".." is cancelled as text
+    if lex != "root" and lex not in have and posixpath.dirname(lex) in have | {""} and rng.random() < 0.75:
+        extra.append(["d", lex])
+        extra.append(["f", lex + "/" + T.MARK + "9", fid, True, 0])
+        fid += 1
+        names = [e[1].split("/", 1)[1] for e in tree if e[0] == "f" and e[1].startswith("root/") and e[1].count("/") == 1]
+        for n in rng.sample(names, min(len(names), 2)) + rng.sample(["index.gmi", "secret.gmi"], rng.randint(0, 2)):
+            if lex + "/" + n not in {x[1] for x in extra}:
+                extra.append(["f", lex + "/" + n, fid, True, 0])
+                fid += 1
+    return extra, sp
+
+
+def run_served(case):
+    """the real `nauyaca serve` (no port bound): every request line through the protocol factory the server listens with"""
+    import shutil
+
+    from ..sim import fs_serve as SV
+
+    with T.Built(case["tree"]) as built:
+        sp = case["rootsp"]
+        written = sp if case["rel"] else built.base + "/" + sp
+        full = os.path.join(built.base, sp)
+        root_ok = os.path.isdir(full) and os.path.realpath(full) == os.path.realpath(built.root)
+        cfgdir = tempfile.mkdtemp(prefix="nv-cfg-")
+        try:
+            argv, lines = [], []
+            how = case["how"]
+            loc_listing = how == "location" and case["listing"] and case["listing_by"] == "loc"
+            if how == "arg":
+                argv.append(written)
+            else:
+                other = built.base + "/" + case["server_root"] if how == "location" else written
+                lines += ["[server]", f"document_root = {_toml_str(other)}"]
+                if case["max"] and case["max_by"] == "server":
+                    lines.append(f"max_file_size = {case['max']}")
+                if not case["ratelimit"]:
+                    lines += ["", "[rate_limit]", "enabled = false"]
+                if how == "location":
+                    for pre in case["prefixes"]:
+                        lines += ["", "[[locations]]", f"prefix = {_toml_str(pre)}", 'handler = "static"', f"document_root = {_toml_str(written)}"]
+                        if loc_listing:
+                            lines.append("enable_directory_listing = true")
+                        if case["indices"]:
+                            lines.append("default_indices = [" + ", ".join(_toml_str(i) for i in case["indices"]) + "]")
+                        if case["max"] and case["max_by"] == "loc":
+                            lines.append(f"max_file_size = {case['max']}")
+                cfg = os.path.join(cfgdir, "server.toml")
+                with open(cfg, "w", encoding="utf-8") as f:
+                    f.write("\n".join(lines) + "\n")
+                argv += ["--config", cfg]
+            if case["listing"] and not loc_listing:
+                argv.append("--enable-directory-listing")
+            if case["max"] and case["max_by"] == "cli":
+                argv += ["--max-file-size", str(case["max"])]
+
+            async def probe(factory):
+                from nauyaca.protocol.request import GeminiRequest
+
+                res = []
+                for i, p in enumerate(case["paths"]):
+                    out, closed = await SV.plain_request(factory, ("gemini://h" + p).encode("utf-8") + b"\r\n", peer=("192.0.2.%d" % (1 + i % 250), 4000 + i))
+                    try:
+                        rp = GeminiRequest.from_line("gemini://h" + p).path
+                    except ValueError:
+                        rp = None
+                    st, meta, btxt = T.parse_wire(out)
+                    r, x = _canon_response(st, meta, btxt, rp if rp is not None else "/", built)
+                    res.append({"r": (["reject"] if rp is None and r == ["59"] else [rp] + r), "x": x, "closed": closed})
+                return res
+
+            ran = SV.run_serve(argv, probe, cwd=built.base if case["rel"] else None)
+        finally:
+            shutil.rmtree(cfgdir, ignore_errors=True)
+        return {"started": ran["started"], "exit": ran["exit"], "said": " ".join((ran["output"] or "").replace(built.base, "<base>").split())[-300:] if not ran["started"] else "",
+                "res": ran["value"] or [], "root_ok": root_ok, "outside": built.outside_ids(), "max": case["max"] or 0,
+                "ents": built.ents, "ents_ok": built.ents == [list(e) for e in case["tree"]]}
+
+
+class Served(Family):
+    """the static handler where the server puts it: the real `nauyaca serve` command builds configuration, locations,
+    router, middleware and protocol factory (only `loop.create_server` is stubbed); the document root is WRITTEN the
+    ways an operator writes it (CLI argument, `[server] document_root`, a `[[locations]]` table; absolute or relative
+    to the working directory; plainly, with `.`/`..`, through symlinks, `<link>/../root`) and every request goes down
+    the wire path: request line -> protocol -> middleware -> Router.route -> handler.  The property is judged against
+    the directory the written root IS for the operating system."""
+    name = "served"
+    quick_n = 1600
+    thorough_n = 30000
+
+    def setup(self):
+        Static.setup(self)
+
+    def gen(self, rng: random.Random, n: int):
+        for i in range(n):
+            tree = T.gen_tree(rng, max_nodes=14 if i % 3 == 0 else 22, names=NAMES)
+            extra, sp = _root_spelling(rng, tree)
+            with T.Built(T.normalise(tree + extra)) as b:      # (what `settle` does) + the spelling must name the root for the kernel
+                tree = b.ents
+                full = os.path.join(b.base, sp)
+                if not (os.path.isdir(full) and os.path.realpath(full) == os.path.realpath(b.root)):
+                    sp = "root"
+            how = rng.choice(["arg", "server", "location", "location"])
+            prefixes = ["/"]
+            if how == "location" and rng.random() < 0.4:
+                firsts = sorted({"/" + e[1].split("/")[1] for e in tree if e[1].startswith("root/") and _tomlable(e[1])})
+                prefixes = [rng.choice(firsts + ["/a", "/sub/"]) + rng.choice(["", "/"]) for _ in range(rng.randint(1, 2))] + ["/"]
+            mx = None if rng.random() < 0.7 else 300
+            yield {"tree": tree, "rootsp": sp, "rel": int(rng.random() < 0.35), "how": how, "prefixes": prefixes,
+                   "server_root": rng.choice(["root-evil", "out", "out/sub", "root"]),
+                   "listing": int(rng.random() < 0.5), "listing_by": rng.choice(["cli", "loc"]),
+                   "indices": None if how != "location" or rng.random() < 0.8 else rng.choice([["index.gmi"], ["f.gmi", "index.gmi"]]),
+                   "max": mx, "max_by": rng.choice(["loc", "server", "cli"] if how == "location" else ["server", "cli"] if how == "server" else ["cli"]),
+                   "ratelimit": int(how == "arg" or rng.random() < 0.3),
+                   "paths": _requests(rng, tree, 8, own_p=0.6)}
+
+    def impl(self, case):
+        return run_served(case)
+
+    model = Static.model
+    expect = Static.expect
+
+    def same(self, expected, obs):
+        if not obs["started"] or not obs["ents_ok"] or not obs["root_ok"] or len(expected) != len(obs["res"]):
+            return False
+        return all(o["r"] == ["reject"] if e == ["reject"] else o["r"] == e[:1] + _wire_of(e) for e, o in zip(expected, obs["res"]))
+
+    def _where(self, case):
+        via = {"arg": "as the argument of `nauyaca serve`", "server": "as [server] document_root", "location": f"in [[locations]] (prefixes {case['prefixes']})"}[case["how"]]
+        return (f"document root written {('<base>/' if not case['rel'] else '')}{case['rootsp']!r} {'(relative to the working directory <base>) ' if case['rel'] else ''}"
+                f"{via}, which is the directory <base>/root")
+
+    def oracle(self, case, obs):
+        if not obs["root_ok"] or not obs["ents_ok"]:
+            return None                  # the tree is not the one described (a harness matter, shows up as a disagreement)
+        if not obs["started"]:
+            return ("root-refused", f"{self._where(case)} (it exists): the server does not start (exit {obs['exit']}: {obs['said']!r}), so no file inside the root is served")
+        return _judge(case["paths"], obs["res"], obs["ents"], obs["outside"], obs["max"] or self.def_max, when=self._where(case) + " - ", lvl0="wire")
+
+    def key(self, case, obs):
+        sp = case["rootsp"]
+        shape = ("link" if any(e[0] == "l" and sp.startswith(e[1]) for e in case["tree"]) else "plain") + ("+dotdot" if ".." in sp else "")
+        import posixpath
+
+        decoy = "+decoy" if ".." in sp and posixpath.normpath(sp) != "root" and any(e[1] == posixpath.normpath(sp) for e in case["tree"]) else ""
+        ks = sorted({"reject" if o["r"][0] == "reject" else ":".join(str(t) for t in o["r"][1:3]) for o in obs["res"]})
+        return f"{case['how']}{'/rel' if case['rel'] else ''}|{shape}{decoy}|" + ("NOSTART" if not obs["started"] else ",".join(ks)[:50])
+
+    def shrink(self, case, bad):
+        try:
+            for p in case["paths"]:
+                c = dict(case, paths=[p])
+                if bad(c):
+                    return c
+        except Exception:  # noqa: BLE001
+            pass
+        return case
+
+
 def _wire_of(e):
     """what the protocol layer must put on the wire for a handler-level expectation"""
     return T.wire_of(e if e == ["reject"] else e[1:])
@@ -748,4 +960,4 @@ class Realpath(Family):
         return "skip" if obs["r"] is None else obs["r"][1].split("@")[0][:4] + (":links" if any(e[0] == "l" for e in case["tree"]) else "")
 
 
-FAMILIES = [Static(), Sequence(), CanonFam(), Realpath()]
+FAMILIES = [Static(), Sequence(), Served(), CanonFam(), Realpath()]
